@@ -86,17 +86,23 @@ def _kfl(ctx, rng, st):
   x = rng.uniform(-span, L - 1 + span, size=(B, units, dims)).astype(np.float32).astype(dt)
   x[0] = np.round(np.clip(x[0], 0, L - 1))
   xin = x if units > 1 else x[:, 0, :]
-  layer(tf.constant(xin))
+  # documented input forms: one tensor, a list of `dims` tensors with a trailing 1, extra batch dimensions
+  form = str(rng.choice(["tensor", "tensor", "list", "extra_batch", "list_extra_batch"]))
+  ctx.cls("kfl:form=" + form)
+  if form in ("extra_batch", "list_extra_batch"):
+    xin = xin.reshape((2, B // 2) + xin.shape[1:])
+  feed = [tf.constant(xin[..., d:d + 1]) for d in range(dims)] if form.startswith("list") else tf.constant(xin)
+  layer(feed)
   K = rng.normal(size=layer.kernel.shape).astype(np.float32)
   S = rng.normal(size=layer.scale.shape).astype(np.float32)
   b = rng.normal(size=layer.bias.shape).astype(np.float32)
   layer.kernel.assign(K); layer.scale.assign(S); layer.bias.assign(b)
-  y = _call(st, layer, tf.constant(xin)).numpy().reshape(B, units)
+  y = _call(st, layer, feed).numpy().reshape(B, units)
   dense = okfl.dense_kernel(K, S, b)
   lat = tfl.layers.Lattice(lattice_sizes=[L] * dims, units=units, clip_inputs=clip, **dkw)
-  lat(tf.constant(xin))
+  lat(feed)
   lat.kernel.assign(dense.astype(dt))
-  y2 = lat(tf.constant(xin)).numpy().reshape(B, units)
+  y2 = lat(feed).numpy().reshape(B, units)
   mag = okfl.evaluate(np.abs(K), np.abs(S), np.abs(b), x.astype(np.float64), clip=clip)
   tol = (core.REL_TOL if dt == "float32" else 1e-11) * max(1.0, float(mag.max())) * 4
   ctx.cls("kfl:dtype=" + dt)
